@@ -428,8 +428,11 @@ func TimeToUint64(value time.Time) uint64 {
 	switch {
 	case unixSeconds > MaxNanoTimestampInt64Seconds:
 		unixNano = math.MaxInt64
-	case unixSeconds < 0 || unixNano < 0:
+	case unixSeconds < 0:
 		unixNano = 0
+	case unixNano < 0:
+		// the nanoseconds overflowed within the last second an int64 timestamp can represent
+		unixNano = math.MaxInt64
 	}
 
 	return uint64(unixNano)
